@@ -65,7 +65,8 @@ GEN_KEYS = ["AudioFilename", "AudioLeadIn", "PreviewTime", "SampleSet", "SampleV
             "Countdown", "CountdownOffset"]
 GEN_VALUES = ["", "0", "1", "2", "3", "4", "-1", "7", "0.5", "0.7", "1e3", "nan", "inf", "-inf", "2147483647", "2147483648",
               "-2147483648", "-2147483647", "3000000000", "Normal", "Soft", "Drum", "None", "Half speed", "Double speed",
-              "normal", "a\\b\\c.mp3", "\"q\".mp3", "x:y", "1:2", " 1 ", "+1", "1 // c", "1//c", "0x1", "1.0", "１"]
+              "normal", "a\\b\\c.mp3", "\"q\".mp3", "x:y", "1:2", " 1 ", "+1", "1 // c", "1//c", "0x1", "1.0", "１",
+              "03", "00", "255", "256", "-0", "+0", "3 ", "1e0"]
 
 
 def rand_field(rng, kind):
